@@ -109,7 +109,8 @@ def s_calllater (ctx, p):
   ran = []
   nthreads, ncalls = p.get("threads", 2), p.get("calls", 2)
   total = nthreads * ncalls
-  S, R, sch = setup(ctx, p["threaded"], p["funcs"], lambda: len(set(ran_tags(ran))) < total, p.get("opcode"), p.get("rotate"), real_pinger=p.get("real_pinger", False))
+  S, R, sch = setup(ctx, p["threaded"], p["funcs"], lambda: len(set(ran_tags(ran))) < total, p.get("opcode"), p.get("rotate"), real_pinger=p.get("real_pinger", False),
+                    max_points=p.get("max_points", 6000))
   raiser = p.get("raiser")
   if raiser:
     import logging
@@ -250,6 +251,10 @@ def configs (quick):
         if not quick: cs.append(dict(base, bound=2, raiser="exc", calls=3))
         # the library's real pipe pinger instead of the counting model; 3 calls per thread
         cs.append(dict(base, bound=2 if threaded else 1, real_pinger=True, calls=3))
+        # a pile of hand-overs around the pinger's read size (pong_all reads 1024 bytes at a time): default schedule
+        # only (the foreign thread hands everything over while the scheduler sleeps)
+        for n in ((1024,) if quick else (1023, 1024, 1025, 2048)):
+          cs.append(dict(base, bound=0, real_pinger=True, threads=1, calls=n, max_points=400000))
       # every line of recoco.py as a scheduling point, one deviation
       cs.append(dict(base, funcs=None, bound=1))
       if not quick:
@@ -278,7 +283,7 @@ def cfg_name (c):
                              "/opcode" if c.get("opcode") else "", "/rotate" if c.get("rotate") else "",
                              ("/via-schedule" if c.get("via") else "") + ("/reyield" if c.get("reyield") else "")
                              + ("/real-pinger" if c.get("real_pinger") else "") + ("/raiser-" + c["raiser"] if c.get("raiser") else "")
-                             + ("/via-core" if c.get("via_core") else ""))
+                             + ("/via-core" if c.get("via_core") else "") + ("/calls%d" % c["calls"] if c.get("calls", 0) > 3 else ""))
 
 
 def _worker (item):
@@ -296,7 +301,7 @@ def _worker (item):
     if bad:
       rep.violation("%s:%s:%s" % (PID, bad[0], hub), "%s [%s]" % (bad[1], cfg_name(cfgd)),
                     dict(config=dict(cfgd, funcs=None if cfgd["funcs"] is None else list(cfgd["funcs"])), choices=ctx.choices()))
-    if rep.evaluations == 1 and prefixes and prefixes[0]:
+    if rep.evaluations == 1 and prefixes and (prefixes[0] or cfgd.get("calls", 0) > 3):
       rep.sample(dict(scenario=cfg_name(cfgd), deviations=[(i, t[2], t[0]) for i, t in enumerate(ctx.trace) if t[0]],
                       scheduling_points=len(ctx.trace), verdict=bad and bad[0], observation=out))
     if rep.evaluations % 200 == 0: gc.collect()
